@@ -73,7 +73,11 @@ type result struct {
 	Neighbors int       `json:"neighbors"`
 	Fatal     bool      `json:"fatal,omitempty"` // the child cannot continue after this stream
 	Millis    int64     `json:"ms"`
+	// AllocNoise: the bound was exceeded once but neither in the frame by frame pass nor in a repetition
+	AllocNoise int `json:"alloc_noise,omitempty"`
 }
+
+var secondPass bool // serveStream is running as the repetition of a stream (children serve one stream at a time)
 
 // freshAlways: run the fresh-router check after every stream (replay), else after every 4th
 // stream and after every stream with an alarm.
@@ -239,7 +243,7 @@ func serveStream(idx int, s stream, attribute bool) (res result) {
 	res.Fatal = wedged
 	bound := uint64(allocBase + allocPerByte*res.Sent + allocPerFrame*complete)
 	if res.Alloc > bound {
-		if !attribute && !wedged {
+		if !attribute && !wedged && !secondPass {
 			// name the frame: serve the same stream once more, measuring after every frame
 			if res.Alloc > 8<<20 {
 				runtime.GC()
@@ -253,8 +257,18 @@ func serveStream(idx int, s stream, attribute bool) (res result) {
 					break
 				}
 			}
-			if !found {
-				add("alloc", vf.F("frame_type", "?", "phase", "?"), fmt.Sprintf("stream %q: %d bytes sent in %d complete frames, %d bytes allocated (bound %d); not reproduced in the attribution pass", s.Label, res.Sent, complete, res.Alloc, bound))
+			if !found && !secondPass {
+				// TotalAlloc is process wide (timers, goroutines of earlier streams): a small excess that the frame
+				// by frame pass does not show is measured once more in the same feed mode and only reported if it
+				// shows again
+				secondPass = true
+				again := serveStream(idx, s, false)
+				secondPass = false
+				if again.Alloc > bound {
+					add("alloc", vf.F("frame_type", "?", "phase", "?"), fmt.Sprintf("stream %q: %d bytes sent in %d complete frames, %d and then %d bytes allocated in two passes (bound %d); not reproduced in the attribution pass", s.Label, res.Sent, complete, res.Alloc, again.Alloc, bound))
+				} else {
+					res.AllocNoise = 1
+				}
 			}
 		} else if worstFrame >= 0 {
 			f := frames[worstFrame]
@@ -613,6 +627,7 @@ func main() {
 				r.Eval(1)
 				r.Count("bytes_sent", res.Sent)
 				r.Count("complete_frames_sent", res.Frames)
+				r.Count("alloc_bound_exceeded_once_but_not_on_repetition", res.AllocNoise)
 				byLabel[s.Label]++
 				byEnd[res.End]++
 				if res.Sent > 0 {
